@@ -266,6 +266,27 @@ HTTP_DOC = {
 }
 
 
+def _status_is(atoms, const_word, number):
+    """does this path establish that the HTTP status equals the given code?  accepted tests:
+    status == StatusCode::<CONST> (PartialEq::eq true / ne false) and status.as_u16() == <number>"""
+    for (a, o, _bb) in atoms:
+        named = _has(a, lambda z: z[0] == "K" and const_word in str(z[1]))
+        numeric = _has(a, lambda z: z[0] == "K" and re.match(r"^%d(_u16|_u32|_i32|_usize)?$" % number, str(z[1]))) and _has(a, lambda z: z[0] == "C" and z[2].endswith("StatusCode::as_u16"))
+        if not (named or numeric):
+            continue
+        if a[0] == "call":
+            if a[1].endswith("PartialEq::eq") and o is True:
+                return True
+            if a[1].endswith("PartialEq::ne") and o is False:
+                return True
+        if a[0] == "bin":
+            if a[1] == "Eq" and o is True:
+                return True
+            if a[1] == "Ne" and o is False:
+                return True
+    return False
+
+
 def rule_P3(F, R):
     R.begin("P3", "HTTP mapping table (docs/http.md): endpoints, verbs, content types, X-Client-Id on all four; 409 -> ExpectedParentVersion(X-Parent-Version-Id); success -> Ok(X-Version-Id); 404 -> NoSuchVersion / no snapshot; X-Snapshot-Request urgency=low|high")
     consts = {"server::sync::HISTORY_SEGMENT_CONTENT_TYPE": "application/vnd.taskchampion.history-segment",
@@ -337,7 +358,7 @@ def rule_P3(F, R):
                 if not holder:
                     continue
                 v = holder[0]
-                conflict = any(a[0] == "call" and a[1].endswith("PartialEq::eq") and o is True and _has(a[2], lambda z: z[0] == "K" and "CONFLICT" in str(z[1])) for (a, o, _bb) in p.atoms)
+                conflict = _status_is(p.atoms, "CONFLICT", 409)
                 hdr = None
                 if v[3][0][1][0] == "F" or v[3][0][1][0] == "C":
                     hh = []
@@ -360,7 +381,7 @@ def rule_P3(F, R):
         if m in ("get_child_version", "get_snapshot"):
             nf = False
             for p in paths:
-                is404 = any(_has(a, lambda z: z[0] == "K" and "NOT_FOUND" in str(z[1])) and o is True for (a, o, _bb) in p.atoms)
+                is404 = _status_is(p.atoms, "NOT_FOUND", 404)
                 empty = _has(p.ret, lambda z: z[0] == "A" and ((z[1].endswith("GetVersionResult") and z[2] == "NoSuchVersion") or (z[1].endswith("option::Option") and z[2] == "None")))
                 if is404 and empty and p.ret[2] == "Ok":
                     nf = True
